@@ -9,7 +9,7 @@ TH15 = ['Smtb.File.readStaged_take', 'Smtb.File.read_strict_prefix_fails', "Smtb
         'Smtb.File.read_header_cut', 'Smtb.File.read_error_no_system', 'Smtb.File.read_strict_prefix_no_system',
         'Smtb.File.read_full_ok', 'Smtb.File.read_eq_readStaged', 'Smtb.File.Toy.h1', 'Smtb.File.Toy.h2']
 
-CONST = {'layout': 'ok', 'reload': 'ok', 'cross': 'ok', 'convert': 'ok'}
+CONST = {'layout': 'ok', 'reload': 'ok', 'cross': 'ok', 'convert': 'ok', 'filecut': 'as-expected'}
 
 
 def run(ctx, which):
@@ -25,12 +25,12 @@ def run(ctx, which):
     if which == 'c11':
         only = {'header', 'parseheader'}
         const = CONST
-        args = ['-seed', ctx.seed, '-tiny', ctx.pick(3, 12), '-real', '-cuts', 0, '-window', 0]
+        args = ['-seed', ctx.seed, '-tiny', ctx.pick(3, 12), '-real', '-cuts', 0, '-window', 0, '-dir', ctx.scratchdir()]
         ctx.assumptions.append("partial: 'the reloaded system produces proofs the original verifies' is exercised with real Groth16 (cross prove/verify both ways), the cryptography itself is not modelled")
     else:
         only = {'cut'}
         const = {k: v for k, v in CONST.items()}
-        args = ['-seed', ctx.seed, '-tiny', ctx.pick(3, 10), '-real', '-cuts', ctx.pick(6, 900), '-window', ctx.pick(1, 64)]
+        args = ['-seed', ctx.seed, '-tiny', ctx.pick(3, 10), '-real', '-cuts', ctx.pick(6, 900), '-window', ctx.pick(1, 64), '-dir', ctx.scratchdir()]
         ctx.assumptions.append("fault enumeration: EVERY cut offset of several small proving-system files (both formats); on a real 84 MB system every offset in the header, +-window around each section boundary, one byte short, and stratified random interior offsets; all 84M offsets of the real file are out of reach")
     n, mism, stats = common.corr(ctx, 'file', 'corrfile', args, ['corr', 'file'], only=only, const=const, timeout=7200)
     ctx.oblige('T-corr file: real WriteTo/WriteRawTo/UnsafeReadFrom on small and real systems = framing model', not mism,
@@ -48,6 +48,9 @@ def run(ctx, which):
 def replay(ctx, data):
     common.go_build(['corrfile'])
     common.lake_build(['driver'])
-    n, mism, _ = common.corr(ctx, 'replay', data['go_cmd'], data['go_args'], data['driver_args'], only=set(data.get('only', [])), const=CONST, timeout=7200)
+    args = list(data['go_args'])
+    if '-dir' in args:
+        args[args.index('-dir') + 1] = ctx.scratchdir()
+    n, mism, _ = common.corr(ctx, 'replay', data['go_cmd'], args, data['driver_args'], only=set(data.get('only', [])), const=CONST, timeout=7200)
     print('REPLAY:', 'reproduces ' + str(mism[0])[:600] if mism else 'no longer fails')
     return 1 if mism else 0
